@@ -274,6 +274,18 @@ PROPS = {
         rule="case i mod 3: 0 = CBE encoder output, 1 = mutated CBE document still accepted by decoder+rules, 2 = accepted CTE text (half generated documents, half lists of literal spellings); distinct by document bytes",
         trusted_base=COMMON_TB,
     ),
+    "C07": dict(
+        claim="(1) panic containment: a Lean model of Go's panic propagation through an entry point's call tree (escapes: a deferred recover stops everything raised below it; code that is not itself an extracted entry point is arbitrary and may panic anywhere) and the theorem contained_sound: the syntactic predicate `contained` implies that no panic escapes, for EVERY behaviour of the code below. The facts (deferred recover, unchecked indexing of a parameter, callees) of all 27 exported error-returning functions of packages ce, cbe, cte are re-extracted from /repo by extract/main.go on every run and the obligation entry_points_contain_panics is decided over them by the kernel; no_panic_escapes_any_entry_point instantiates the theorem for the current source; entry_points_present keeps the 24 entry points the property names from disappearing. "
+              "(2) termination of the CBE decoder model: every main-loop iteration and every chunk header consumes at least one byte (decodeOne_progress, decodeChunks_len), so a run takes at most len(document) iterations (loopIterations_le) and the fuel of the model is never what stops it (decode_never_stalls); the model is the one tied to cbe/decoder.go by the C01/C09/C27 correspondence. "
+              "(3) no goroutine waits forever on the shared type caches (C17 no_goroutine_waits_forever, C16 failed_generation_leaves_fresh_cache: the hang of defect D09 cannot return). "
+              "Harness: every input (empty, header-only, random, mutated / truncated / length-inflated valid CBE and CTE documents, huge array headers, containers nested 10 .. 100 000 (thorough: 3 000 000) deep, up to 200 000 tiny tokens) is given to all 14 decode/unmarshal entry points (universal, CBE, CTE; reader and document forms; with and without a rules receiver) with rules on and off and 10 template kinds incl. chan/func/struct-with-chan; every seventh case marshals a Go value (unsupported kinds at top level, in fields, in interfaces, never-seen struct types, generated supported values) through the 4 marshal entry points. In-process recover + 30 s watchdog; the process runs under RLIMIT_AS 8 GiB and writes the call it is about to make to a file first, so a process killed by a Go fatal error (stack overflow, out of memory) is reported with its input",
+        note="partial (level other): Go run-time fatal errors (stack exhaustion, out of memory) and termination of the ANTLR-generated CTE parser are observed under a watchdog and an address-space limit, not proved; panic containment is proved from extracted syntactic facts (a recover that re-panics, or a goroutine started inside an entry point, would not be seen by the extractor: neither exists in the pinned source, and the harness observes escapes directly). Marshaling a cyclic value without RecursionSupport is documented-unsupported input (unbounded recursion) and is not generated",
+        level="other", n_quick=1600, n_thorough=64000, shards=16, timeout_quick=900, timeout_thorough=14000, rlimit_as_gb=8,
+        lean_modules=["CE.Props.C07", "CE.Gen.CheckEntry", "CE.Cbe.Progress"],
+        rule="case i: i mod 7 = 6 marshals a value of one of 9 kinds; otherwise one of 14 input classes x one of 10 template kinds x rules on (2/3) / off, given to all 14 entry points; distinct by input bytes; non-trivial = longer than 2 bytes",
+        trusted_base=COMMON_TB + ["extract/main.go entrypoints: go/ast reading of deferred recover / parameter indexing / callees", "helpers listed in CE.Api.safeCallees (constructors, bufio/bytes wrappers, the two dispatch switches) are assumed not to panic", "Go runtime: recover() stops a panic raised in the same goroutine"],
+        technique="Lean 4 theorems (panic-propagation soundness over regenerated entry-point facts; decoder progress by induction), plus watchdog / address-space-limited execution of every entry point as supporting observation for run-time fatal errors",
+    ),
     # NEW-ENTRIES-ABOVE
 }
 
